@@ -324,14 +324,24 @@ class C14(Property):
     def __init__(self, tier, seed):
         super().__init__(tier, seed)
         self._shcache = {}
+        self._obs_cache = {}
         self.stats = {'kinds': {}, 'exc': {}, 'sh_quoted_args': 0, 'sh_bare_args': 0, 'cmd_quoted_args': 0,
                       'shell_batches': 0, 'shell_single_runs': 0, 'lexer_validation': {}}
 
     # ------------------------------------------------------------------ translator
     def regen(self):
         from boltons import strutils
-        f = strutils._find_sh_unsafe
+        f = getattr(strutils, '_find_sh_unsafe', None)
         pat = getattr(f, '__self__', None)
+        if not callable(f) or not isinstance(pat, re.Pattern):
+            # the scanner is no longer a compiled regex under that name: evaluate the encoder itself on every
+            # one-character argument ("left bare" = safe) - the object is evaluated, not its construction
+            pat = None
+            a2s = strutils.args2sh
+
+            def f(ch):
+                return None if a2s([ch]) == ch else ch
+        self.stats['sh_safe_table_source'] = '_find_sh_unsafe' if pat is not None else 'args2sh on one-character arguments'
         runs, lo = [], None
         for c in range(0x110000):
             if 0xD800 <= c <= 0xDFFF:
@@ -354,7 +364,7 @@ class C14(Property):
         except Exception:
             pass
         self.stats['sh_unsafe_pattern_shape'] = shape
-        src = pat.pattern if pat is not None else repr(f)
+        src = pat.pattern if pat is not None else 'args2sh([c]) == c'
         body = ('/-\nGENERATED by harness/bv/props/c14.py (regen) from boltons/strutils.py - do not edit.\n'
                 'source pattern of `_find_sh_unsafe` (UTF-8 hex): %s flags=%s\n'
                 '`shSafeRanges` = the maximal runs of code points c (0..0x10FFFF) with `_find_sh_unsafe(chr(c)) is None`,\n'
@@ -727,15 +737,26 @@ class C14(Property):
         k = case['k']
         if k in ('sh', 'cmd', 'esa') and any(len(a) > 5000 for a in case['args']):
             return None     # the reference lexers of the model build words by appending (quadratic): oracle only
-        if k in ('sh', 'cmd'):
+        if k in ('sh', 'cmd', 'esa'):
+            # the correspondence is SEMANTIC: the Lean reference lexer is applied to the text the implementation
+            # produced and must read it back as exactly the arguments (Props: sh_accepts_iff / crt_accepts_iff).
+            # Which text is chosen among the correct ones is not constrained by the statement; the model's own
+            # text is compared in extra_checks as a diagnostic only.
             if any('\0' in a or has_surrogate(a) for a in case['args']):
                 return None
-            return ' '.join([k] + [hx(a) for a in case['args']])
-        if k == 'esa':
-            if any('\0' in a or has_surrogate(a) for a in case['args']):
-                return None
-            return ' '.join(['esaw' if case.get('plat') == 'win32' else 'esa', hx(case['style'] or '')] +
-                            [hx(a) for a in case['args']])
+            if k == 'esa' and not self.style_in_domain(case['style']):
+                return None     # unknown style strings: the statement says nothing about them
+            obs = self._obs_for(case)
+            text = obs.get('text') if isinstance(obs, dict) else None
+            if not isinstance(text, str) or '\0' in text or has_surrogate(text):
+                text = ''       # nothing the lexer could read: the model then answers REJECTED / the oracle decides
+            if len(text) > 60000:
+                return None     # (the reference lexers build words by appending: oracle only)
+            if k == 'esa':
+                head = ['esav', '1' if case.get('plat') == 'win32' else '0', hx(case['style'] or ''), hx(text)]
+            else:
+                head = [k + 'v', hx(text)]
+            return ' '.join(head + [hx(a) for a in case['args']])
         if k in ('fmt', 'parse', 'compl'):
             d, rd = self._dl(case)
             if not self.model_delims(d, rd):
@@ -754,6 +775,11 @@ class C14(Property):
             return ' '.join(['compld' if custom else 'compl'] + pre +
                             [hx(case['s']), '%d' % case['a'], 'N' if case['e'] is None else '%d' % case['e']])
         return None
+
+    @staticmethod
+    def style_in_domain(style):
+        """the styles the statement / the documentation speak about: 'sh', 'cmd' and the falsy ones (platform default)"""
+        return style in ('sh', 'cmd', None, '')
 
     @staticmethod
     def in_parse_alphabet(s, d=',', rd='-'):
@@ -824,6 +850,19 @@ class C14(Property):
         return list(items)
 
     def impl(self, case):
+        obs = self._impl_outer(case)
+        # line() needs the text the implementation produced (acceptance is judged on THAT text)
+        if case.get('k') in ('sh', 'cmd', 'esa'):
+            if len(self._obs_cache) > 3000:
+                self._obs_cache.clear()
+            self._obs_cache[self.key(case)] = obs
+        return obs
+
+    def _obs_for(self, case):
+        obs = self._obs_cache.get(self.key(case))
+        return obs if obs is not None else self.impl(case)
+
+    def _impl_outer(self, case):
         if not case.get('pre'):
             return self._impl(case)
         # a case with a history is hermetic: it starts from a freshly executed module (so the failure it shows is
@@ -1004,15 +1043,15 @@ class C14(Property):
         k = case['k']
         if 'exc' in obs:
             return obs['exc']
-        if k == 'sh':
-            r = obs['sh']
-            return 'T%s S%s' % (hx(obs['text']), show_list(r) if isinstance(r, list) else 'none')
-        if k == 'cmd':
-            t = obs['text']
-            return 'T%s D%s L%s M%s' % (hx(t), show_list(crt_parse(t, 'D')), show_list(crt_parse(t, 'L')),
-                                        show_list(crt_parse(t, 'M')))
-        if k == 'esa':
-            return 'ValueError' if obs['text'] is None else 'T%s' % hx(obs['text'])
+        if k in ('sh', 'cmd', 'esa'):
+            # what the model answers when the Lean lexer reads the implementation's text back as the arguments
+            if obs['text'] is None:
+                return 'ValueError'
+            args = show_list(case['args'])
+            eff = k if k != 'esa' else (case['style'] or ('cmd' if case.get('plat') == 'win32' else 'sh'))
+            if eff == 'sh':
+                return 'T%s S%s ok' % (hx(obs['text']), args)
+            return 'T%s D%s L%s M%s ok' % (hx(obs['text']), args, args, args)
         if k == 'fmt':
             return 'T%s P%s R%s' % (hx(obs['text']), self._nats(obs['parsed']), self._ranges(obs['ranges']))
         if k == 'parse':
@@ -1219,6 +1258,7 @@ class C14(Property):
             back = drv.query(['table'])[0]
             if back != ','.join('%d:%d' % r for r in runs):
                 raise InfraError('generated sh table in the driver (%s) differs from the live regex (%s)' % (back, runs))
+        self._text_diagnostic(drv)
         # --- shSplit vs real shells and shlex: wherever the Lean lexer accepts, they must produce the same words
         alpha = ['a', "'", '"', '\\', ' ', '\t', '\n', '$', '=', 'é', '-', '*', 'b']
         texts = [''.join(t) for n in range(0, 4) for t in itertools.product(alpha[:8], repeat=n)]
@@ -1265,6 +1305,45 @@ class C14(Property):
         v['crt_texts'] = len(ctexts)
         self.stats['lexer_validation'] = v
         return []
+
+    def _text_diagnostic(self, drv):
+        """DIAGNOSTIC ONLY (never a verdict): does the implementation still write exactly the text the model of
+        args2sh / args2cmd writes?  The statement does not fix the text, so a difference is recorded in the
+        evidence (`exact_text_vs_model`) and nothing else; the correspondence proper is acceptance of the
+        implementation's text by the Lean reference lexers."""
+        from boltons import strutils
+        pool = [''] + HOSTILE + ["it's", 'a b', 'a"b', 'x\\', 'a b\\', "''", '&|', 'a\nb', 'plain', "'", '\\"', '$a']
+        lists = [[a] for a in pool] + [[a, b] for a in pool[:8] for b in pool[:8]] + [[], ['a', 'b c', "d'e", '']]
+        out = {}
+        for k, fn in (('sh', strutils.args2sh), ('cmd', strutils.args2cmd)):
+            lines, texts = [], []
+            for args in lists:
+                try:
+                    with time_limit(10):
+                        t = fn(list(args))
+                except Exception:
+                    t = None
+                lines.append(' '.join([k] + [hx(a) for a in args]))
+                texts.append(t)
+            model = drv.query(lines)
+            same = diff = 0
+            ex = None
+            for args, t, m in zip(lists, texts, model):
+                mt = m.split(' ')[0]
+                if isinstance(t, str) and 'T' + hx(t) == mt:
+                    same += 1
+                else:
+                    diff += 1
+                    if ex is None:
+                        try:
+                            mtext = bytes.fromhex(mt[1:]).decode('utf-8') if mt != 'T-' else ''
+                        except ValueError:
+                            mtext = mt
+                        ex = {'args': args, 'implementation': t, 'model': mtext}
+            out[k] = {'identical': same, 'different': diff}
+            if ex is not None:
+                out[k]['first_difference'] = ex
+        self.stats['exact_text_vs_model'] = out
 
     # ------------------------------------------------------------------ shrinking
     def shrink(self, case):
